@@ -148,6 +148,8 @@ def replay_ops(ops):
         elif o == "dec_json":
             from .. import jsontree
             w.dec_json(json.dumps(tagged_to_plain(op["tree"])))
+        elif o == "graph_roundtrip":
+            w.graph_roundtrip(op["c"])
         elif o == "provn":
             w.provn(op["c"])
         elif o == "provn_rec":
